@@ -63,6 +63,11 @@ class Ctx:
     def violation(self, rule, key, where, fact="", soft=False):
         self.results.append(Result(rule, key, "violation", where, fact, self._clause, soft))
 
+    def undecided(self, rule, key, where, fact=""):
+        """the obligation could not be decided either way; the run goes on (later obligations may still identify something positively)
+        and ends with exit 2 unless a violation is found"""
+        self.results.append(Result(rule, key, "undecided", where, fact, self._clause))
+
     def check(self, cond, rule, key, where, fact_ok="", fact_bad=""):
         if cond:
             self.ok(rule, key, where, fact_ok)
@@ -290,7 +295,10 @@ def main(argv=None):
             print(m)
         if not viol:
             return 2
-    if soft and not viol:
+    und = [r for r in ctx.results if r.status == "undecided"]
+    for r in und:
+        print(f"ANALYSIS-ERROR property={a.prop} {r.where} [{r.rule}] {r.key}: {r.fact}")
+    if (soft or und) and not viol:
         return 2
     if a.replay:
         with open(a.replay if os.path.isabs(a.replay) else os.path.join(VERIF, a.replay)) as f:
